@@ -169,3 +169,35 @@ reg("C15",
     "modulo down-conversion; HTML styles only inline-vs-class (drift). Control codes inside the styled export are tolerated (decoded away).",
     "TLA+ spec Record.tla; TLC exhaustive model check with defect switches + TLC-generated (exhaustive and -simulate) histories replayed on the real Console + TLC trace validation of tokenised file / capture / export streams",
     "DESIGN.md §4 C15")
+
+reg("C01",
+    "Layout.tla formalises the structural minimum MinW of C01 over abstract renderable trees (13 built-in kinds + protocol-only renderables) and the quantifier (InScope); TLC (M1) exhaustively checks the laws of MinW/InScope and that the code's top-down budget arithmetic leaves every child its MinW at W=MinW, over all builder histories of <=3/5 (thorough 4/6) actions, and (M2) emits every <=2-action history with full option products plus simulated 9-action histories. These trees and seeded random trees (nesting <=4, every layout option of the quantifier, ASCII/CJK/emoji/combining/zero-width/newline/tab contents; quick 900 trees, thorough ~14 000) are built as real Rich objects and rendered with Console.render at every W in MinW-2..MinW+12 and a x1.5 ladder to 200; every sub-tree is rendered again stand-alone at the budgets its parent handed down. TLC computes MinW from the tree and judges Fits for every W >= MinW; rejections are delta-debugged with TLC judging every round. Bounded sampling judged by a formal spec, not a proof.",
+    "Trusted: segments->lines->cell_len of the tree under test (C13), character->(class,width) projection, tree->constructor calls. Conservative MinW choices C1-C8 in Layout.tla (titled rules +4, width options below the minimum / non-free tables / exposed ignore leaves are out of scope); a rejected record with a rejected sub-tree is attributed to the sub-tree; Console(color_system=None, utf-8).",
+    "TLA+ spec Layout.tla; TLC exhaustive model check of the MinW/budget laws + TLC-generated builder histories instantiated as real renderables + TLC validation of recorded renders (trace validation), TLC-judged delta debugging",
+    "DESIGN.md §4 C01")
+
+reg("C09",
+    "Same tree sources as C01 (Layout.tla, TLC-generated builder histories and seeded random trees incl. renderables without a measure method and __rich__ casts); every sub-tree is measured with Measurement.get at avail in {0..5, MinW-1..MinW+6, x1.6 ladder to 200, random points} and rendered with exactly the reported max and min; TLC judges 0<=min<=max<=avail, Fits at max/min when >=MinW, and for text leaves without tabs (quick ~2 800, thorough ~30 000) min = widest word and max = widest line computed by TLC from per-character classes/widths, and line count at max = source lines. Under-measurement by containers is outside the statement and not detected. Bounded.",
+    "Trusted as for C01; the minimum of a text without any word is not judged (statement silent); out-of-scope trees are judged on bounds and text clauses only.",
+    "TLA+ spec Layout.tla; TLC-generated builder histories instantiated as real renderables + TLC validation of recorded measurements and renders, TLC-judged delta debugging",
+    "DESIGN.md §4 C09")
+
+reg("C08",
+    "Frames.tla states the C08 relations (PanelOK, PaddingOK, AlignOK, ConstrainOK, StyledOK, RuleOK, BarOK, ColumnsOK, TreeOK; each names its first "
+    "failing clause) over lexically projected renders, plus the design arithmetic of panel/padding/align (RefRender).  TLC (M1) checks, for every "
+    "composition of <= 2 (quick) / <= 3 (thorough) panel/padding/align frames x 24 option sets around 3 leaves x 6 widths, that the design satisfies the "
+    "relations and that three classic wrong designs (child one cell narrower than framed, centre rounded up, left/right padding swapped) are rejected; "
+    "(M2) all 1 728 two-frame compositions are rebuilt from the real classes and replayed.  Those and seeded random Panel / Padding / Align / Constrain / "
+    "Styled / Rule / Bar / ProgressBar / Columns / Tree objects (children: self-identifying ASCII / double-width / zero-width / multi-line text, tables, "
+    "groups, nested frames, random layout trees; every rich.box, titles, width options, paddings, ascii-only / legacy-windows / colour on-off consoles) "
+    "are rendered with Console.render at widths from the structural minimum up; the ConsoleOptions a frame hands to its child are observed and the child "
+    "is rendered alone with them; TLC judges every record (M3, ~10 k quick / ~140 k thorough).  Corrupted copies of accepted records must be rejected in "
+    "every run.  Bounded random conformance, not a proof.",
+    "Trusted: segments -> lines -> code point*4 + rich.cells width (style ids by str(style)); the Console.render hook; runs of identifying characters for "
+    "Columns; drivers' structural minimum (only picks widths / tells TLC where the domain starts); spec -> constructor calls.  Domain: W >= Layout!MinW, "
+    "width options >= that minimum; frames whose child itself overflows are skipped (C01); titles without line breaks / markup.  Centred Align must use "
+    "excess div 2; centred Panel/Rule titles only balanced within one cell (rounding, tree guide shapes, label budget, Columns expand, solid Bar exact = "
+    "DRIFT).  TLC -coverage exhausts memory on the recursive relations, so action coverage is asserted on a separate run of the bare state graph.",
+    "TLA+ spec Frames.tla; TLC exhaustive check that the frame-composition design satisfies the relations and wrong designs do not + TLC-emitted "
+    "compositions replayed on the real classes + TLC batch validation (M3) of recorded renders",
+    "DESIGN.md §4 C08")
